@@ -3,7 +3,7 @@
 // element type makes a round trip with dcast (nm::cast<T>(a), then nm::cast<int>(…)).  After every step:
 //   r=<result> shape=… strides=<a.strides()> n=<cells> data=<buffer> astrides=<strides the offset functor addresses with>
 //   [via=<shape>/<strides>/<astrides>/<data> of the T-typed intermediate of a dcast]
-// Built as two TUs (-DC20_GROUP=0/1): each serves the cast targets of one group (compile time).
+// Built as four TUs (-DC20_GROUP=0..3): each serves the cast targets / element types of one group (compile time).
 #include "nmtools/array/ndarray.hpp"
 #include "nmtools/array/ndarray/hybrid.hpp"
 #include "nmtools/array/ndarray/dynamic.hpp"
@@ -107,20 +107,22 @@ template <template <typename> typename K, typename Src> static bool cast_to(cons
 template <typename Src> static int do_cast(const Src& a, const std::string& k, State& out) {
 #if C20_GROUP == 0
     if (k=="dd")   return cast_to<dd_k>(a,out)   ? 0 : 1;
-    if (k=="ddc")  return cast_to<ddc_k>(a,out)  ? 0 : 1;
     if (k=="fd6c") return cast_to<fd6c_k>(a,out) ? 0 : 1;
-    if (k=="df2")  return cast_to<df2_k>(a,out)  ? 0 : 1;
     if (k=="bb")   return cast_to<bb_k>(a,out)   ? 0 : 1;
-    if (k=="hyb")  return cast_to<hyb_k>(a,out)  ? 0 : 1;
     if (k=="lf")   return cast_to<lf_k>(a,out)   ? 0 : 1;
-#else
+#elif C20_GROUP == 1
+    if (k=="ddc")  return cast_to<ddc_k>(a,out)  ? 0 : 1;
+    if (k=="df2")  return cast_to<df2_k>(a,out)  ? 0 : 1;
+    if (k=="hyb")  return cast_to<hyb_k>(a,out)  ? 0 : 1;
+#elif C20_GROUP == 2
     if (k=="fd6")  return cast_to<fd6_k>(a,out)  ? 0 : 1;
-    if (k=="df3c") return cast_to<df3c_k>(a,out) ? 0 : 1;
     if (k=="db3")  return cast_to<db3_k>(a,out)  ? 0 : 1;
-    if (k=="b8d")  return cast_to<b8d_k>(a,out)  ? 0 : 1;
     if (k=="ff")   return cast_to<ff_k>(a,out)   ? 0 : 1;
-    if (k=="dyn")  return cast_to<dyn_k>(a,out)  ? 0 : 1;
     if (k=="lfc")  return cast_to<lfc_k>(a,out)  ? 0 : 1;
+#else
+    if (k=="df3c") return cast_to<df3c_k>(a,out) ? 0 : 1;
+    if (k=="b8d")  return cast_to<b8d_k>(a,out)  ? 0 : 1;
+    if (k=="dyn")  return cast_to<dyn_k>(a,out)  ? 0 : 1;
 #endif
     return 1;
 }
@@ -142,10 +144,12 @@ template <typename A> static bool do_dcast(A& a, const std::string& t, std::stri
   if constexpr (dcastable<A>()) {
 #if C20_GROUP == 0
     if (t=="i8")  { v = round_trip<signed char>(a); return true; }
+#elif C20_GROUP == 1
     if (t=="f64") { v = round_trip<double>(a); return true; }
     if (t=="i64") { v = round_trip<long long>(a); return true; }
-#else
+#elif C20_GROUP == 2
     if (t=="u8")  { v = round_trip<unsigned char>(a); return true; }
+#else
     if (t=="i16") { v = round_trip<short>(a); return true; }
 #endif
   }
